@@ -14,6 +14,7 @@ import json
 import os
 
 from core import coqrun
+from fakes import c06_infojudge
 from fakes import c06_mem
 
 ID = 'C06'
@@ -57,17 +58,31 @@ PROVED = ('For every history of reads, queued / flushing writes, arbitrary packe
           'every history of deck reads and writes on decks with any bases (one read and one write outstanding at the '
           'same time), arbitrary packets, disconnects and requests on other memories, every deck callback reports the '
           'deck-relative address asked in the request it belongs to, the data of a deck read / the completion of a deck '
-          'write are those of a completed transfer at base + address, and no listener calls a missing callback.')
+          'write are those of a completed transfer at base + address, and no listener calls a missing callback. '
+          'Enumeration / refresh (model C06/InfoModel.v of the code as it is, commit ae515bf / F02i in): in every history '
+          '(also with refresh() called while another one is in progress) every refresh() is answered by at most one '
+          'notification; a link drop resets everything (the state after it differs from a fresh start only by the '
+          'request counter) and fails a waiting refresh once; refresh() leaves no read record and no element behind; for '
+          'every device without 1-wire memory (any number of memories, any start state without a left-over 1-wire '
+          'update) the in-order enumeration ends with exactly one done and the device\'s list; devices with 1-wire '
+          'memories (good / bad header CRC, bad element CRC, elements over several read chunks) are enumerated exactly '
+          'in the model in order and under a hostile schedule (computed examples).')
 NOT_PROVED = ('Exactness when a reply that outlived its request (a late duplicate) is delivered to a later request for '
               'the same memory and address: refuted (C06_read_exact_full_refuted / C06_write_exact_full_refuted, '
               'finding F06b, reproduced on the code by the oracle; the protocol carries no transaction number). '
               'Requests outside wf_event, user callbacks that raise, requests issued from the notifications of a disconnect, progress_cb (a zero-length write with '
               'a progress callback divides by zero while the lock is held), true thread interleavings of user calls with '
-              'the packet thread, the info channel (memory enumeration); of the deck layer: query_decks / the info section '
+              'the packet thread; of the enumeration: exactness for devices with 1-wire memories is proved only as '
+              'computed instances plus the tie (no general theorem); outside the property text and only observed '
+              '(theorems C06_overlapping_refresh_observation_*, C06_refused_1wire_read_observation): refresh() called '
+              'while another one is in progress or a late / duplicated details reply can leave a refresh unanswered or '
+              'end it with a partial list, a 1-wire read the device refuses leaves the refresh unanswered; 1-wire '
+              'contents with unknown element ids (parsing belongs to C14), refresh() called from inside the done '
+              'callback; of the deck layer: query_decks / the info section '
               '(its parsing belongs to C14), bases <= 0, other users of the manager\'s memory id, write_failed_cb left at '
               'its default None (the code then calls None when the write fails), progress messages.')
 
-HEADER = 'From CF Require Import Common.Bytes C06.Model C06.DeckModel.\nOpen Scope Z_scope.\n'
+HEADER = 'From CF Require Import Common.Bytes C06.Model C06.DeckModel C06.InfoModel.\nOpen Scope Z_scope.\n'
 
 R_LENS = [0, 1, 2, 19, 20, 21, 39, 40, 41, 59, 60, 61, 79, 80, 81, 100]
 W_LENS = [0, 1, 2, 24, 25, 26, 49, 50, 51, 74, 75, 76, 99, 100, 101]
@@ -332,6 +347,9 @@ def _forged(rng, rig, ids):
 
 
 def nontrivial(case):
+    if case.get('kind') == 'info':
+        evs = case['events']
+        return any(d[0] == 1 for d in case['dev']) or sum(1 for e in evs if e[0] == 'F') > 1 or any(e[0] == 'X' for e in evs)
     evs = list(c06_mem.all_ops(case['events']))
     cross = any((e[0] in ('R', 'DR') and e[3] > 20) or (e[0] in ('W', 'DW') and len(e[3]) > 25) for e in evs)
     ds = [e[1] for e in evs if e[0] == 'D']
@@ -346,7 +364,7 @@ def corpus_cases():
     for p in sorted(glob.glob(os.path.join(coqrun.VERIF, 'corpus', 'C06', '*.json'))):
         c = json.load(open(p))
         c.setdefault('plan', [])
-        c['windows'] = windows_of(c['events'])
+        c['windows'] = [] if c.get('kind') == 'info' else windows_of(c['events'])
         c['_file'] = os.path.basename(p)
         out.append(c)
     return out
@@ -396,7 +414,21 @@ def tie(ctx):
             cases.append({'plan': [], 'events': evs, 'windows': windows_of(evs)})
     terms, exp, anomalies = [], [], []
     n_nested = 0
+    # memory enumeration / refresh against a byte-exact device
+    n_info = ctx.scale(220, 2500)
+    for k in range(n_info):
+        cases.append(c06_infojudge.gen_info_case(ctx.rng, 'clean' if k % 3 == 0 else 'faulty'))
+    sysinfo = c06_infojudge.systematic_info_cases()
+    cases += sysinfo if ctx.thorough else sysinfo[::3]
     for c in cases:
+        if c.get('kind') == 'info':
+            ints, rig = c06_infojudge.run_info_impl(c)
+            terms.append(c06_infojudge.info_case_term(c))
+            exp.append(ints)
+            if rig.anomalies and len(anomalies) < 5:
+                anomalies.append({'what': 'send_packet called with arguments the protocol does not need', 'events': c['events'][:12],
+                                  'impl': rig.anomalies[:2]})
+            continue
         ints, rig = run_impl(c)
         terms.append(deck_case_term(c, rig.flat) if is_deck_case(c) else case_term(c, rig.flat))
         exp.append(ints)
@@ -445,6 +477,9 @@ def tie(ctx):
         # stale deliveries: marker 9 followed by freshness flag 0 on a 'D' event
     dist['stale_deliveries_in_first_300'] = sum(_count_stale(c) for c in cases[:300])
     dist['enumerated_schedules'] = n_enum
+    dist['enumeration_histories'] = sum(1 for c in cases if c.get('kind') == 'info')
+    dist['refresh_calls'] = sum(1 for c in cases for e in c['events'] if e[0] == 'F')
+    dist['one_wire_memories'] = sum(1 for c in cases if c.get('kind') == 'info' for d in c['dev'] if d[0] == 1)
     dist['deck_layer_histories'] = sum(1 for c in cases if is_deck_case(c))
     dist['deck_reads'] = sum(1 for c in cases for e in c['events'] if e[0] == 'DR')
     dist['deck_writes'] = sum(1 for c in cases for e in c['events'] if e[0] == 'DW')
@@ -1067,7 +1102,10 @@ def oracle(ctx, deep=False):
     fails = []
     n = 0
     cases = corpus_cases() + systematic_cases(deep or ctx.thorough) + deck_systematic_cases()
+    cases += c06_infojudge.systematic_info_cases()
     rng = ctx.rng
+    for k in range(ctx.scale(250, 3000) * (3 if deep else 1)):
+        cases.append(c06_infojudge.gen_info_case(rng, 'clean' if k % 3 == 0 else 'faulty'))
     for k in range(ctx.scale(200, 2500) * (3 if deep else 1)):
         cases.append(gen_deck_case(rng, 'clean' if k % 3 == 0 else 'faulty'))
     for k in range(ctx.scale(500, 6000) * (3 if deep else 1)):
@@ -1075,6 +1113,11 @@ def oracle(ctx, deep=False):
     keys = set()
     for c in cases:
         n += 1
+        if c.get('kind') == 'info':
+            f = c06_infojudge.judge_info(c)
+            if f:
+                fails.append(f)
+            continue
         f = judge(c)
         if nontrivial(c):
             keys.add(runner_sha(c))
@@ -1127,4 +1170,6 @@ def replay(payload, ctx):
         _, hf = high_level_cases()
         hf = [f for f in hf if f['case'] == c]
         return hf[0] if hf else None
+    if c.get('kind') == 'info':
+        return c06_infojudge.judge_info(c)
     return judge(c, finish=True)
